@@ -400,8 +400,44 @@ def rich_texts(model: Model):
 def subject_rule(ctx, model: Model, rule, names):
     """Whatever `re` is applied to must be the very text the caller supplied: positions, captures, pieces and
     replacements are all relative to it."""
-    for rich in rich_texts(model):
+    texts = rich_texts(model)
+    _subject_rule_path(ctx, model, rule, names, texts[0])
+    for rich in texts:
         _subject_rule_one(ctx, model, rule, names, rich)
+
+
+def _subject_rule_path(ctx, model: Model, rule, names, rich):
+    """The same for a FILE source: with is_path=True - spelled by keyword or by position, on a compiled or an
+    uncompiled pattern - `re` must be applied to the file's text, never to the path string."""
+    meths = matching_methods(model)
+    for name in names:
+        f = meths[name]
+        ps = [p for p in f.params if p != "self"]
+        val = lambda p: (PATH if p == "source" else True if p == "is_path" else 1 if p in ("n_left", "n_right") else "<repl>" if p == "repl"
+                         else 0 if p == "count" else True)
+        for spelling in ("keyword", "positional"):
+            if spelling == "keyword":
+                args, kw = [], {p: val(p) for p in ps}
+            else:
+                args, kw = [val(p) for p in ps], {}
+            for compiled in (False, True):
+                def setup(o, hooks):
+                    hooks.file_text = rich
+                kind, v, hooks, o = run_method(model, name, args, kw, compiled=compiled, matches_for=std_matches, obj_setup=setup)
+                if kind == "return" and hasattr(v, "__next__"):
+                    try:
+                        list(v)
+                    except PyRaise as e:
+                        kind, v = "raise", e
+                seen = [c.get("subject") for c in hooks.calls if c.get("subject") is not None]
+                inp = f"{name}(path, is_path=True given by {spelling}) compiled={compiled}"
+                ctx.instance(rule, key=inp, sample=f"{inp}: re received {len(seen)} subject(s), all of them the file's text: {all(x == rich for x in seen)}")
+                bad = [x for x in seen if x != rich]
+                if bad or kind == "raise" or not seen:
+                    what = "the path string itself" if bad and bad[0] == PATH else "another text"
+                    ctx.violation(rule, f.relpath, f.short, "<text given to re>",
+                                  "with a file source re is not applied to the file's text", f.node.lineno, inp=inp,
+                                  detail=(f"re received {what}: {bad[0][:40]!r}" if bad else (f"raises {v.name}" if kind == "raise" else "re was not called")))
 
 
 def _subject_rule_one(ctx, model: Model, rule, names, rich):
